@@ -200,4 +200,66 @@ example : (fit .dirichlet 2 3 4 (fun i j => if (i, j) ∈ [(0,0),(0,1),(1,1),(1,
       { valuesRow := .dict [(0, 1/10)], valuesCol := .dict [(1, 2)], init := some (3/10) } 2 0).toOption
     = some ⟨[1/10, 23/20], some [1/10, 23/20], some [1/10, 2, 23/20]⟩ := by decide +kernel
 
+/-! ## temperatures given as array, list or dict -/
+
+/-- **values_honoured (array, list)**: a vector of the right length is taken as it is, whether it comes as an
+ndarray or as a list; a wrong length is the documented `ValueError`. -/
+theorem values_array_honoured (n : Nat) (l : List Rat) :
+    (l.length = n → getValues n (.arr l) (-1) = .ok l ∧ getValues n (.list l) (-1) = .ok l) ∧
+    (l.length ≠ n → getValues n (.arr l) (-1) = .error .valueError ∧ getValues n (.list l) (-1) = .error .valueError) := by
+  constructor
+  · intro h; simp [getValues, h]
+  · intro h; simp [getValues, h]
+
+/-- **values_honoured (dict)**: for a non-empty dict `{node: temperature}` with distinct nodes `< n`, every
+temperature reaches exactly its node and every other node gets −1 (= "no seed"). -/
+theorem values_dict_honoured (n : Nat) (kv : List (Nat × Rat)) (hne : kv ≠ [])
+    (hk : ∀ e, e ∈ kv → e.1 < n) (hnd : (kv.map (·.1)).Nodup) :
+    ∃ r, getValues n (.dict (toKV kv)) (-1) = .ok r ∧ r.length = n ∧
+      (∀ e, e ∈ kv → r.getD e.1 0 = e.2) ∧ (∀ i, i < n → (∀ e, e ∈ kv → e.1 ≠ i) → r.getD i 0 = -1) :=
+  getValues_dict_nodup hne hk hnd
+
+/-- Non-vacuity. -/
+example : getValues 4 (.dict (toKV [(2, 5), (0, 1/2)])) (-1) = .ok [1/2, -1, 5, -1] := by decide +kernel
+
+/-- **values_honoured (dict, any integer keys)**: with numpy's index rule (`-n ≤ k < n`, negative keys count from
+the end) the entry of node `i` is the value of the *last* key denoting `i`, else −1; a key outside the range is
+`IndexError`, an empty dict `ValueError`. -/
+theorem values_dict_general (n : Nat) (kv : List (Int × Rat)) :
+    (∀ r, getValues n (.dict kv) (-1) = .ok r →
+      r.length = n ∧ ∀ i, i < n → r.getD i 0 = (lastAt n kv i).getD (-1)) ∧
+    (kv = [] → getValues n (.dict kv) (-1) = .error .valueError) ∧
+    (kv ≠ [] → (∀ e, e ∈ kv → (pyIndex n e.1).isSome) → ∃ r, getValues n (.dict kv) (-1) = .ok r) := by
+  refine ⟨fun r h => getValues_dict h, fun h => by subst h; rfl, fun hne hk => ?_⟩
+  unfold getValues
+  have : kv.isEmpty = false := by
+    cases kv with
+    | nil => exact absurd rfl hne
+    | cons e rest => rfl
+  simp only [this]
+  exact assign_ok_of_keys kv _ hk
+
+/-- **values_honoured (the three forms agree)**. The list form and the ndarray form of a vector, and the dict form
+and the ndarray form of the same temperatures, are indistinguishable for `get_values` … -/
+theorem values_forms_same (n : Nat) :
+    (∀ l, SameValues n (.list l) (.arr l)) ∧
+    (∀ kv : List (Nat × Rat), kv ≠ [] → (∀ e, e ∈ kv → e.1 < n) → (kv.map (·.1)).Nodup →
+      SameValues n (.dict (toKV kv)) (.arr (seedsArray n kv (-1)))) :=
+  ⟨sameValues_list_arr n, fun _ hne hk hnd => sameValues_dict_arr hne hk hnd⟩
+
+/-- … and `fit` (Diffusion and Dirichlet, adjacency or biadjacency input) returns the same `values_`,
+`values_row_`, `values_col_` for any two calls whose `values`, `values_row`, `values_col` are indistinguishable
+in that sense. -/
+theorem values_forms_agree (algo : Algo) (nRow nCol nnz : Nat) (B : Nat → Nat → Rat) (a a' : Args) (nIter : Int)
+    (α : Rat) (hv : SameValues nRow a.values a'.values) (hr : SameValues nRow a.valuesRow a'.valuesRow)
+    (hc : SameValues nCol a.valuesCol a'.valuesCol) (hf : a.forceBipartite = a'.forceBipartite)
+    (hi : a.init = a'.init) :
+    fit algo nRow nCol nnz B a nIter α = fit algo nRow nCol nnz B a' nIter α :=
+  fit_congr hv hr hc hf hi
+
+/-- Non-vacuity: the `house` call with the seeds as dict, as list and as ndarray. -/
+example : seedsArray 5 [(0, 1), (2, 0)] (-1) = [1, -1, 0, -1, -1] := by decide +kernel
+example : (fit .dirichlet 5 5 12 houseAdj { values := .list [1, -1, 0, -1, -1] } 2 0).toOption
+    = (fit .dirichlet 5 5 12 houseAdj { values := .dict [(0, 1), (2, 0)] } 2 0).toOption := by decide +kernel
+
 end SkNet.C14
